@@ -439,7 +439,8 @@ def key_of(ctx, nid, spec):
     spec = tuple(spec)
     if spec[0] == 'index':         # non-callable key: x[key]
         return spec[1]
-    return lambda x, _s=spec: fns.f1(_s, x)
+    # a key function is user code like any other: logged, and C16's fault enumeration makes it raise
+    return ctx.sync_fn(nid, lambda x, _s=spec: fns.f1(_s, x), kind='key')
 
 
 def zip_args(n, N):
